@@ -246,6 +246,18 @@ def _ctor(R, rng, ctx):
         r = ekf.make_reading(sn, **{rd[0]: 42.0})
         if r.data[0, 0] != 42.0 or np.count_nonzero(r.data) != 1:
             R.add([K.V("ctor:make_reading", f"make_reading({sn}, {rd[0]}=42) stored {r.data.tolist()}", **w)])
+        # a sequence of make_reading calls for the same sensor: every call stores its own names and defaults
+        # the rest, and a reading handed out earlier stays as it was
+        full = ekf.make_reading(sn, **{n_: 10.0 + j for j, n_ in enumerate(rd)})
+        full_copy = full.data.copy()
+        part = ekf.make_reading(sn, **{rd[-1]: -7.5})
+        R.stats.inc("ctor_make_reading_sequences")
+        exp_part = np.zeros((len(rd), 1))
+        exp_part[len(rd) - 1, 0] = -7.5
+        if not np.array_equal(part.data, exp_part):
+            R.add([K.V("ctor:make_reading", f"make_reading({sn}, {rd[-1]}=-7.5) after a full reading stored {part.data.tolist()} (unnamed entries must default to 0)", **w)])
+        if not np.array_equal(full.data, full_copy):
+            R.add([K.V("ctor:make_reading", f"a reading returned by make_reading({sn}, ...) changed when make_reading was called again", **w)])
     # layouts are the sorted name lists (declared layout == public arglists)
     if monitors.names_of(ekf.State) != [str(s) for s in ekf.arglist_state]:
         R.add([K.V("ctor:layout", "State layout differs from arglist_state", **w)])
